@@ -756,6 +756,10 @@ func (x *exec) reenterHavoc(st *State, fr *Frame, ins ssa.Instruction, ci callee
 	for _, re := range x.unit.Spec.Reenter {
 		hit := false
 		for _, c := range re.Callees {
+			if c == "*" {
+				hit = true // another goroutine may write the locations at any time: forgotten after every call
+				continue
+			}
 			want := x.resolveCalleeName(x.unit.Spec.Pkg, c)
 			if want == ci.key || want == skey {
 				hit = true
@@ -767,6 +771,10 @@ func (x *exec) reenterHavoc(st *State, fr *Frame, ins ssa.Instruction, ci callee
 		env := x.unitEnv(st, fr)
 		for _, m := range re.Mods {
 			env.havocLocation(st, m)
+		}
+		if re.Keeping != nil {
+			kenv := x.unitEnv(st, fr)
+			st.assume(kenv.evalBool(re.Keeping.Expr))
 		}
 		x.e.note("rely clause of %s: calls to %s may run code that writes %d listed location(s); they are forgotten after the call", x.unit.Name, shortKey(ci.key), len(re.Mods))
 	}
